@@ -91,7 +91,7 @@ func classesUpTo(gg []glyph.ID) classdef.Table {
 // BigClasses lists the large-subtable families, GSUB first.
 var BigClasses = []BigClass{
 	{Name: "gsub1_2", Kind: gtab.TypeGsub, Format: 12, Lo: 4000, Hi: 32764, OvfLo: 32765, OvfHi: 33500,
-		Site: "Gsub1_2.coverageOffset", 
+		Site: "Gsub1_2.coverageOffset",
 		Build: func(p BigParams) gtab.Subtable {
 			gg := p.glyphs(p.N)
 			sub := make([]glyph.ID, p.N)
@@ -101,7 +101,7 @@ var BigClasses = []BigClass{
 			return &gtab.Gsub1_2{Cov: CovTable(gg), SubstituteGlyphIDs: sub}
 		}},
 	{Name: "gsub2_1", Kind: gtab.TypeGsub, Format: 21, Lo: 2000, Hi: 8000, OvfLo: 8300, OvfHi: 9000,
-		Site: "Gsub2_1.sequenceOffset", 
+		Site: "Gsub2_1.sequenceOffset",
 		Build: func(p BigParams) gtab.Subtable {
 			gg := p.glyphs(p.N)
 			repl := make([][]glyph.ID, p.N)
@@ -115,7 +115,7 @@ var BigClasses = []BigClass{
 			return &gtab.Gsub2_1{Cov: CovTable(gg), Repl: repl}
 		}},
 	{Name: "gsub3_1", Kind: gtab.TypeGsub, Format: 31, Lo: 2000, Hi: 8000, OvfLo: 8300, OvfHi: 9000,
-		Site: "Gsub3_1.alternateSetOffset", 
+		Site: "Gsub3_1.alternateSetOffset",
 		Build: func(p BigParams) gtab.Subtable {
 			gg := p.glyphs(p.N)
 			alt := make([][]glyph.ID, p.N)
@@ -129,7 +129,7 @@ var BigClasses = []BigClass{
 			return &gtab.Gsub3_1{Cov: CovTable(gg), Alternates: alt}
 		}},
 	{Name: "gsub4_1", Kind: gtab.TypeGsub, Format: 41, Lo: 1000, Hi: 2700, OvfLo: 2800, OvfHi: 3200,
-		Site: "Gsub4_1.coverageOffset", 
+		Site: "Gsub4_1.coverageOffset",
 		Build: func(p BigParams) gtab.Subtable {
 			gg := p.glyphs(p.N)
 			repl := make([][]gtab.Ligature, p.N)
@@ -142,15 +142,15 @@ var BigClasses = []BigClass{
 			return &gtab.Gsub4_1{Cov: CovTable(gg), Repl: repl}
 		}},
 	{Name: "gsub5_1", Kind: gtab.TypeGsub, Format: 51, Lo: 1500, Hi: 3600, OvfLo: 3700, OvfHi: 4000,
-		Site: "SeqContext1.seqRuleSetOffset",  Build: bigSeqContext1},
+		Site: "SeqContext1.seqRuleSetOffset", Build: bigSeqContext1},
 	{Name: "gsub5_2", Kind: gtab.TypeGsub, Format: 52, Lo: 1500, Hi: 3200, OvfLo: 3700, OvfHi: 4000,
-		Site: "SeqContext2.classDefOffset",  Build: bigSeqContext2},
+		Site: "SeqContext2.classDefOffset", Build: bigSeqContext2},
 	{Name: "gsub5_3", Kind: gtab.TypeGsub, Format: 53, Lo: 6000, Hi: 16000, OvfLo: 16500, OvfHi: 16900,
 		Site: "SeqContext3.coverageOffset", Scattered: true, Build: bigSeqContext3},
 	{Name: "gsub6_1", Kind: gtab.TypeGsub, Format: 61, Lo: 1200, Hi: 2450, OvfLo: 2800, OvfHi: 3100,
-		Site: "ChainedSeqContext1.ruleSetOffset",  Build: bigChained1},
+		Site: "ChainedSeqContext1.ruleSetOffset", Build: bigChained1},
 	{Name: "gsub6_2", Kind: gtab.TypeGsub, Format: 62, Lo: 1200, Hi: 2100, OvfLo: 2600, OvfHi: 2900,
-		Site: "ChainedSeqContext2.ruleSetOffset",  Build: bigChained2},
+		Site: "ChainedSeqContext2.ruleSetOffset", Build: bigChained2},
 	{Name: "gsub6_3", Kind: gtab.TypeGsub, Format: 63, Lo: 6000, Hi: 16000, OvfLo: 16500, OvfHi: 16900,
 		Site: "ChainedSeqContext3.coverageOffset", Scattered: true, Build: bigChained3},
 	{Name: "gsub8_1", Kind: gtab.TypeGsub, Format: 81, Lo: 6000, Hi: 16000, OvfLo: 16500, OvfHi: 16900,
@@ -170,7 +170,7 @@ var BigClasses = []BigClass{
 		}},
 
 	{Name: "gpos1_2", Kind: gtab.TypeGpos, Format: 12, Lo: 6000, Hi: 16000, OvfLo: 16500, OvfHi: 17000,
-		Site: "Gpos1_2.coverageOffset", 
+		Site: "Gpos1_2.coverageOffset",
 		Build: func(p BigParams) gtab.Subtable {
 			gg := p.glyphs(p.N)
 			adj := make([]*gtab.GposValueRecord, p.N)
@@ -180,7 +180,7 @@ var BigClasses = []BigClass{
 			return &gtab.Gpos1_2{Cov: CovTable(gg), Adjust: adj}
 		}},
 	{Name: "gpos2_1", Kind: gtab.TypeGpos, Format: 21, Lo: 2000, Hi: 4600, OvfLo: 5500, OvfHi: 5900,
-		Site: "Gpos2_1.pairSetOffset", 
+		Site: "Gpos2_1.pairSetOffset",
 		Build: func(p BigParams) gtab.Subtable {
 			gg := p.glyphs(p.N)
 			res := make(gtab.Gpos2_1, 2*p.N)
@@ -195,7 +195,7 @@ var BigClasses = []BigClass{
 			return res
 		}},
 	{Name: "gpos2_2", Kind: gtab.TypeGpos, Format: 22, Lo: 60, Hi: 127, OvfLo: 130, OvfHi: 200,
-		Site: "Gpos2_2.coverageOffset", 
+		Site: "Gpos2_2.coverageOffset",
 		Build: func(p BigParams) gtab.Subtable {
 			k := p.N
 			g1 := p.glyphs(k)
@@ -214,7 +214,7 @@ var BigClasses = []BigClass{
 			return &gtab.Gpos2_2{Cov: CovSet(g1), Class1: classesUpTo(g1), Class2: classesUpTo(g2), Adjust: adj}
 		}},
 	{Name: "gpos3_1", Kind: gtab.TypeGpos, Format: 31, Lo: 2000, Hi: 4000, OvfLo: 4200, OvfHi: 4600,
-		Site: "Gpos3_1.anchorOffset", 
+		Site: "Gpos3_1.anchorOffset",
 		Build: func(p BigParams) gtab.Subtable {
 			gg := p.glyphs(p.N)
 			recs := make([]gtab.EntryExitRecord, p.N)
@@ -225,40 +225,40 @@ var BigClasses = []BigClass{
 			return &gtab.Gpos3_1{Cov: CovTable(gg), Records: recs}
 		}},
 	{Name: "gpos4_1", Kind: gtab.TypeGpos, Format: 41, Lo: 2000, Hi: 5400, OvfLo: 6600, OvfHi: 7000,
-		Site: "Gpos4_1.markArray", 
+		Site: "Gpos4_1.markArray",
 		Build: func(p BigParams) gtab.Subtable {
 			marks, recs, targets, rows := bigMarks(p, p.N, 40, 2)
 			return &gtab.Gpos4_1{MarkCov: CovTable(marks), BaseCov: CovTable(targets), MarkArray: recs, BaseArray: rows}
 		}},
 	{Name: "gpos4_1b", Kind: gtab.TypeGpos, Format: 41, Lo: 1000, Hi: 2700, OvfLo: 2800, OvfHi: 3200,
-		Site: "Gpos4_1.baseArray", 
+		Site: "Gpos4_1.baseArray",
 		Build: func(p BigParams) gtab.Subtable {
 			// N base glyphs x 3 mark classes, all anchors present
 			marks, recs, targets, rows := bigMarks(p, 30, p.N, 3)
 			return &gtab.Gpos4_1{MarkCov: CovTable(marks), BaseCov: CovTable(targets), MarkArray: recs, BaseArray: rows}
 		}},
 	{Name: "gpos6_1", Kind: gtab.TypeGpos, Format: 61, Lo: 2000, Hi: 5400, OvfLo: 6600, OvfHi: 7000,
-		Site: "Gpos6_1.mark1Array", 
+		Site: "Gpos6_1.mark1Array",
 		Build: func(p BigParams) gtab.Subtable {
 			marks, recs, targets, rows := bigMarks(p, p.N, 40, 2)
 			return &gtab.Gpos6_1{Mark1Cov: CovTable(marks), Mark2Cov: CovTable(targets), Mark1Array: recs, Mark2Array: rows}
 		}},
 	{Name: "gpos6_1b", Kind: gtab.TypeGpos, Format: 61, Lo: 1000, Hi: 2700, OvfLo: 2800, OvfHi: 3200,
-		Site: "Gpos6_1.mark2Array", 
+		Site: "Gpos6_1.mark2Array",
 		Build: func(p BigParams) gtab.Subtable {
 			marks, recs, targets, rows := bigMarks(p, 30, p.N, 3)
 			return &gtab.Gpos6_1{Mark1Cov: CovTable(marks), Mark2Cov: CovTable(targets), Mark1Array: recs, Mark2Array: rows}
 		}},
 	{Name: "gpos7_1", Kind: gtab.TypeGpos, Format: 71, Lo: 1500, Hi: 3600, OvfLo: 3700, OvfHi: 4000,
-		Site: "SeqContext1.seqRuleSetOffset",  Build: bigSeqContext1},
+		Site: "SeqContext1.seqRuleSetOffset", Build: bigSeqContext1},
 	{Name: "gpos7_2", Kind: gtab.TypeGpos, Format: 72, Lo: 1500, Hi: 3200, OvfLo: 3700, OvfHi: 4000,
-		Site: "SeqContext2.classDefOffset",  Build: bigSeqContext2},
+		Site: "SeqContext2.classDefOffset", Build: bigSeqContext2},
 	{Name: "gpos7_3", Kind: gtab.TypeGpos, Format: 73, Lo: 6000, Hi: 16000, OvfLo: 16500, OvfHi: 16900,
 		Site: "SeqContext3.coverageOffset", Scattered: true, Build: bigSeqContext3},
 	{Name: "gpos8_1", Kind: gtab.TypeGpos, Format: 81, Lo: 1200, Hi: 2450, OvfLo: 2800, OvfHi: 3100,
-		Site: "ChainedSeqContext1.ruleSetOffset",  Build: bigChained1},
+		Site: "ChainedSeqContext1.ruleSetOffset", Build: bigChained1},
 	{Name: "gpos8_2", Kind: gtab.TypeGpos, Format: 82, Lo: 1200, Hi: 2100, OvfLo: 2600, OvfHi: 2900,
-		Site: "ChainedSeqContext2.ruleSetOffset",  Build: bigChained2},
+		Site: "ChainedSeqContext2.ruleSetOffset", Build: bigChained2},
 	{Name: "gpos8_3", Kind: gtab.TypeGpos, Format: 83, Lo: 6000, Hi: 16000, OvfLo: 16500, OvfHi: 16900,
 		Site: "ChainedSeqContext3.coverageOffset", Scattered: true, Build: bigChained3},
 }
